@@ -246,6 +246,13 @@ class Engine:
         k = self.in_count.get((kind, key), 0)
         self.in_count[(kind, key)] = k + 1
         name = f"in_{kind}_{key}_{k}"
+        nb = None
+        if lo == 0 and hi is not None and hi > 0 and (hi + 1) & hi == 0 and hi.bit_length() < width:
+            nb = hi.bit_length()
+        if nb is not None:
+            var = z3.BitVec(name, nb)   # same narrow sort as the firmware side uses for this input
+            self.inputs.append((name, var))
+            return SymInt(z3.ZeroExt(W - nb, var))
         var = z3.BitVec(name, width)
         self.inputs.append((name, var))
         if lo is not None:
@@ -339,6 +346,7 @@ class PathOutcome:
         self.inputs = list(eng.inputs)
         self.notes = list(eng.notes)
         self.decisions = list(eng.decisions)
+        self.fp_used = getattr(eng, "fp_used", False)
 
 
 def eng() -> Engine:
